@@ -13,5 +13,8 @@ claim("C14", "SSA graph-cut + who-may-write + value-origin slice over amplificat
 claim("C20", "SSA graph-cut + who-may-write + store-shape over congestion window and pacer guards",
       "Every-path structural checks: ack-path stores only increase or min(max,·) under isCwndLimited and below max, one reduction per epoch with clamp to 2 packets, CanSend shape and gating of SendAny, pacer overflow guards dominate the multiplication, 5/4 factor. Numeric bounds over histories are not decided.",
       "DESIGN.md §3 C20")
-for pid in ["C01","C02","C03","C05","C08","C09","C10","C11","C12","C13","C15","C16","C17","C18","C19"]:
+claim("C15", "SSA graph-cut + who-may-write + store-shape + dispatch-table rules, evaluated per generic instantiation of the streams maps",
+      "Every-path structural checks on all four instantiations: incoming creation only beyond id<=maxStream else STREAM_LIMIT_ERROR, credit re-issued only after deletion of an accepted stream with the limit formula and a paired MAX_STREAMS, openStream only beyond nextStream<=maxStream since the last lock acquisition, IDs +4, STREAMS_BLOCKED once per limit, FIFO head signalling, direction/initiator dispatch with STREAM_STATE_ERROR, accept cursor advanced exactly once. Counting bounds over completion orders are not decided.",
+      "DESIGN.md §3 C15")
+for pid in ["C01","C02","C03","C05","C08","C09","C10","C11","C12","C13","C16","C17","C18","C19"]:
     na(pid, "rules for this property are designed (DESIGN.md §3) but not yet implemented in the checker; not claimed until they are")
